@@ -486,6 +486,39 @@ fn cmp_small_widths(seed: u64) -> serde_json::Value {
     json!({"found": false, "routine": "cmp_small_widths", "tried": tried})
 }
 
+// C14: per-party shares reconstruct the secret, for scalars, arrays (incl. bits and 128-bit) and nested containers
+fn share_roundtrip(seed: u64) -> serde_json::Value {
+    use ciphercore_base::random::PRNG;
+    use ciphercore_base::typed_value::TypedValue;
+    let mut sd = [0u8; 16]; sd[..8].copy_from_slice(&(seed + 1).to_le_bytes());
+    let mut prng = PRNG::new(Some(sd)).unwrap();
+    let types: Vec<Type> = vec![scalar_type(BIT), scalar_type(INT8), scalar_type(UINT64), scalar_type(INT128), array_type(vec![3], BIT), array_type(vec![2, 2], UINT16), array_type(vec![2], UINT128),
+        tuple_type(vec![scalar_type(INT32), array_type(vec![2], BIT)]), vector_type(2, tuple_type(vec![scalar_type(UINT8), scalar_type(INT64)])),
+        named_tuple_type(vec![("a".to_owned(), array_type(vec![2], INT16)), ("b".to_owned(), tuple_type(vec![scalar_type(BIT)]))])];
+    let mut tried = 0;
+    for t in types {
+        for _ in 0..8 {
+            tried += 1;
+            let v = prng.get_random_value(t.clone()).unwrap();
+            let tv = TypedValue::new(t.clone(), v.clone()).unwrap();
+            let r = catch_unwind(AssertUnwindSafe(|| -> std::result::Result<bool, String> {
+                let parties = tv.get_local_shares_for_each_party(&mut PRNG::new(Some(sd)).unwrap()).map_err(|e| e.to_string())?;
+                let k: Vec<Vec<Value>> = parties.iter().map(|p| p.value.to_vector().unwrap()).collect();
+                if k[0][0] != k[2][0] || k[0][1] != k[1][1] || k[1][2] != k[2][2] { return Ok(false); }
+                let shares = TypedValue::new(tuple_type(vec![t.clone(), t.clone(), t.clone()]), Value::from_vector(vec![k[0][0].clone(), k[0][1].clone(), k[1][2].clone()])).map_err(|e| e.to_string())?;
+                let back = shares.secret_share_reveal().map_err(|e| e.to_string())?;
+                Ok(back.value == v)
+            }));
+            let ok = matches!(r, Ok(Ok(true)));
+            if !ok {
+                return json!({"found": true, "routine": "share_roundtrip", "property": "C14", "input": {"type": format!("{}", t), "value": format!("{:?}", serde_json::to_string(&v).unwrap_or_default())},
+                    "expected": "party i holds shares i and i+1 and the three shares recombine to the secret", "observed": format!("{:?}", r.map_err(|_| "panic")), "what": "TypedValue::get_local_shares_for_each_party + secret_share_reveal"});
+            }
+        }
+    }
+    json!({"found": false, "routine": "share_roundtrip", "tried": tried})
+}
+
 fn main() {
     let args: Vec<String> = std::env::args().collect();
     let seed: u64 = args.get(2).and_then(|s| s.parse().ok()).unwrap_or(0);
@@ -500,6 +533,7 @@ fn main() {
         Some("slice_overflow") => slice_overflow(),
         Some("arith_kernels") => arith_kernels(seed),
         Some("cmp_small_widths") => cmp_small_widths(seed),
+        Some("share_roundtrip") => share_roundtrip(seed),
         Some("party_sim_c01") => party_sim::run(seed, "C01"),
         Some("party_sim_c02") => party_sim::run(seed, "C02"),
         Some("party_sim_c03") => party_sim::run(seed, "C03"),
